@@ -295,8 +295,10 @@ class Run:
 
     # ---- one event
     def message(self, c, kind, serial, name, cl):
-        if kind in "AU":
+        if kind in "ABU":
             f = {F_PATH: "/t", F_INTERFACE: "t.I", F_MEMBER: MEMBER[cl], F_DESTINATION: bus_name(name)}
+            if kind == "B":
+                return Msg(SIGNAL, 0, serial, f, "u", (serial,))
             # odd serials carry NO_REPLY_EXPECTED (the caller then gets no NoReply error when the service goes away: that is C09's subject)
             return Msg(METHOD_CALL, (2 if kind == "U" else 0) | (serial & 1), serial, f, "u", (serial,))
         f = {F_PATH: "/org/freedesktop/DBus", F_INTERFACE: BUS, F_DESTINATION: BUS}
@@ -340,7 +342,7 @@ class Run:
         if m.mtype == ERROR and snd == BUS:
             en = m.fields.get(F_ERROR_NAME, "")
             return "%d:e.%d.%s" % (ci, rs or 0, ERR_SHORT.get(en, en))
-        if m.mtype == METHOD_CALL and snd and snd.startswith(":1."):
+        if m.mtype in (METHOD_CALL, SIGNAL) and snd and snd.startswith(":1."):
             frm = int(snd[3:]) - 1
             return "%d:f.%d.%d" % (ci, frm, m.serial)
         return "%d:other.%d.%s" % (ci, m.mtype, m.fields.get(F_MEMBER))
@@ -363,10 +365,10 @@ class Run:
             if u != ":1.%d" % (len(self.conns) + 1):
                 raise IOError("unexpected unique name %r" % u)
             self.conns.append(st)
-        elif k in "AUSRL":
+        elif k in "ABUSRL":
             c, serial = int(p[1]), int(p[2])
             name = p[3]
-            clno = int(p[4]) if k in "AU" else 0
+            clno = int(p[4]) if k in "ABU" else 0
             if k == "S":
                 self.kinds[(c, serial)] = "s"
             elif k in "RL":
